@@ -103,11 +103,12 @@ func runC02(c *core.Ctx, crashes bool) {
 		}
 	}
 	relayer := func() *world.Account { return w.Relayers[ch.Int(2)] }
+	var held []*scen.Sent
 
 	steps := 70 + ch.Int(110)
 	for i := 0; i < steps; i++ {
 		c.Step("c02")
-		switch ch.Pick([]int{25, 25, 30, 10, 5, 5}) {
+		switch ch.Pick([]int{22, 22, 24, 10, 16, 6}) {
 		case 0:
 			e.RandomUserOp(w.Nodes[ch.Int(len(w.Nodes))], uni)
 		case 1: // honest delivery, possibly duplicated by the transport
@@ -151,6 +152,36 @@ func runC02(c *core.Ctx, crashes bool) {
 			n := w.Nodes[ch.Int(len(w.Nodes))]
 			userClean(c, e, n)
 		case 4:
+			// transport delay / reordering: a message built now (proof of now) is held back and
+			// released later, possibly after newer messages overtook it; old cleans are replayed too
+			switch ch.Int(3) {
+			case 0:
+				if it := pickPending(c, e); it != nil {
+					if s := e.Prepare(it, relayer()); s != nil {
+						s.Mut = "delayed"
+						held = append(held, s)
+						w.Stats.Inc("delay-held")
+					}
+				}
+				continue
+			case 1:
+				if len(held) > 0 {
+					i := ch.Int(len(held))
+					s := held[i]
+					held = append(held[:i], held[i+1:]...)
+					w.Stats.Inc("delay-released")
+					e.Submit(s)
+				}
+				continue
+			default:
+				if old := genuineSent(e, scen.KClean); len(old) > 0 {
+					d := scen.CloneSent(old[ch.Int(len(old))])
+					d.Mut = "replay-clean"
+					w.Stats.Inc("replay-clean")
+					e.Submit(d)
+					continue
+				}
+			}
 			n := w.Nodes[ch.Int(len(w.Nodes))]
 			if !n.Down {
 				_, err := w.Block(n, nil, world.NoCrash)
@@ -243,6 +274,12 @@ func userClean(c *core.Ctx, e *scen.Engine, n *world.Node) *world.TxResult {
 	cands := []uint64{cur, cur + 1, maxAck, maxAck + 1, next - 1, next, 1}
 	if maxAck > 1 {
 		cands = append(cands, maxAck-1)
+	}
+	if maxAck > cur+1 { // anywhere inside the admissible window
+		cands = append(cands, cur+1+uint64(ch.Int(int(maxAck-cur))), cur+1+uint64(ch.Int(int(maxAck-cur))))
+	} else {
+		ch.Int(1)
+		ch.Int(1)
 	}
 	N := cands[ch.Int(len(cands))]
 	if N == 0 {
